@@ -249,6 +249,10 @@ def run_crash(shard, ctx):
     old = SMALL2 if shard["size"] == "small" else large_fasta(rng_for(shard["seed"], "old"), 700)
     ref = reference(data)
     scene = Scene(scratch / "crash")
+    # every other shard: all processes of the history report one and the same process id (containers, hosts
+    # sharing the directory, recycled ids) - a left-over temporary file is then met again under its own name
+    same_pid = shard["index"] % 2 == 0
+    sched.FIXED_PID = 4242 if same_pid else None
     for scenario in shard["scenarios"]:
         if scenario == "cli-output":
             # the FASTA to be indexed is one that pretext-to-asm has just written, its side files beside it
@@ -285,10 +289,25 @@ def run_crash(shard, ctx):
             states[sh] = (k, loc)
             ctx.nontrivial(["crash", scenario, shard["size"], sh])
             case = {"kind": "crash", "scenario": scenario, "size": shard["size"], "k": k, "seed": shard["seed"], "index": shard["index"]}
+            left = scene.snapshot() if any(p.name.endswith(".tmp") for p in scene.dir.iterdir()) else None
             if not fresh_check(ctx, scene, ref, f"crash:{scenario}:killed-at-{_locclass(loc)}", case):
                 continue
             # and once more: the state left by that recovery must again be good
             fresh_check(ctx, scene, ref, f"crash:{scenario}:second-load-after-recovery", case)
+            if left is not None and crashed:
+                # the history goes on differently: after the kill (a temporary file is left behind) the FASTA
+                # is replaced by a much shorter one, later; then it is loaded
+                scene.restore(left)
+                keep_fa, keep_real, keep_data = scene.fa, scene.real, scene.data
+                scene.stamp_caches()
+                cur = scene.fa.read_bytes()
+                short = b">" + cur.split(b">")[1]
+                scene.write_fasta(short)
+                ctx.count("crash:then-fasta-shortened" + (":same-pid" if same_pid else ""))
+                if fresh_check(ctx, scene, reference(short), f"crash:{scenario}:killed-at-{_locclass(loc)}:then-fasta-shortened", {**case, "then": "fasta-shortened"}):
+                    # (the process that rebuilds holds the right index in memory; the next one reads what it wrote)
+                    fresh_check(ctx, scene, reference(short), f"crash:{scenario}:killed-at-{_locclass(loc)}:then-fasta-shortened:second-load", {**case, "then": "fasta-shortened"})
+                scene.data = keep_data
         # the same points again, but the interruption is an exception raised inside the process
         # (Ctrl-C at a statement, ENOSPC at a write/close): clean-up code runs, unlike after a kill
         ks2 = [k for k in range(len(locs)) if locs[k].startswith(("raw:", "os.")) or k % (3 if shard["size"] == "small" else 40) == 0]
@@ -582,10 +601,17 @@ def replay(case, ctx):
         else:
             scene.setup(case["scenario"], data, old)
         ref = reference(data)
+        sched.FIXED_PID = 4242 if case["index"] % 2 == 0 else None
         if case["k"] is not None and case["kind"] == "interrupt":
             sched.run_until_interrupt(scene.fa, case["k"])
         elif case["k"] is not None:
             sched.run_until_crash(scene.fa, case["k"])
+        if case.get("then") == "fasta-shortened":
+            scene.stamp_caches()
+            short = b">" + scene.fa.read_bytes().split(b">")[1]
+            scene.write_fasta(short)
+            ref = reference(short)
+            fresh_check(ctx, scene, ref, f"crash:{case['scenario']}:replay:first-load", case)
         ctx.case()
         fresh_check(ctx, scene, ref, f"crash:{case['scenario']}:replay", case)
     else:
@@ -659,6 +685,7 @@ def gates(c, tier):
         "crash:runs": 400,
         "crash:cli-output-scenarios": 1,
         "crash:at-raw-file-op": 100,
+        "crash:then-fasta-shortened:same-pid": 20,
         "interrupt:runs": 150,
         "sched:runs": 600,
         "sched:reader-overlapped-writer": 20,
